@@ -100,6 +100,11 @@ pub fn instances() -> Vec<Instance> {
             push(format!("${w}"), RefKind::Var, reduced);
         }
     }
+    // a variable name may be spelled like any reserved word, and continue one
+    for (kw, _) in reflex::KEYWORDS {
+        push(format!("${kw}"), RefKind::Var, matches!(*kw, "in" | "list"));
+        push(format!("${kw}s"), RefKind::Var, false);
+    }
     for (s, _) in reflex::KEYWORDS {
         push(s.to_string(), RefKind::Fixed(s), matches!(*s, "class" | "in" | "int" | "true"));
     }
@@ -206,7 +211,7 @@ impl Engine for C14 {
     fn rule(&self, tier: Tier) -> String {
         let n = instances();
         format!(
-            "{} token instances (identifiers <=3 over {{a,Z,_,7}} incl. digit-leading, and 12 identifiers that begin like 0b / 0x literals; signed decimals <=3 digits over {{0,1,9}} + 64-bit boundary values; hex <=2, binary <=3 digits; string bodies <=3 items over {{a,space,\\\\,\\\",\\',\\t,\\n}}; code bodies <=3 over {{a,}},],[,{{,LF}}; $names; 25 keywords; 53 operators; 18 punctuation marks); \
+            "{} token instances (identifiers <=3 over {{a,Z,_,7}} incl. digit-leading, and 12 identifiers that begin like 0b / 0x literals; signed decimals <=3 digits over {{0,1,9}} + 64-bit boundary values; hex <=2, binary <=3 digits; string bodies <=3 items over {{a,space,\\\\,\\\",\\',\\t,\\n}}; code bodies <=3 over {{a,}},],[,{{,LF}}; $names incl. every keyword spelling; 25 keywords; 53 operators; 18 punctuation marks); \
              every block comment `/*` + body of <= {} pieces over {{/*, */, /, *, a, space}} that the reference finds well nested and terminated, followed by an integer; \
              every single instance, every ordered pair{} joined by each of {} separators, with and without a trailing separator; expected stream known by construction and cross-checked against the reference lexer. \
              non-trivial = not two punctuation marks; descriptors distinct by construction.",
